@@ -141,7 +141,8 @@ Definition known_F16 (c : c05_case) : bool :=
 
     [registry_ofb] = [registry_entries_ofb && labels_injectiveb] (Model/Program.v):
     - [corr_registry_of]: every entry is what scale-info's derive produces for its label, one level
-      of ids (must hold on EVERY case: it ties the interner's entries to the specification);
+      of ids (must hold on EVERY case: it ties the interner's entries to the specification; sound for
+      the first two clauses of [RegistryOf] by [C05_registry_entries_ofb_sound]);
     - [hyp_registry_of]: additionally one id per label, i.e. [registry_ofb] and with it the
       [RegistryOf] hypothesis of the C05 theorems ([C05_registry_ofb_sound], with
       [hyp_prelude_nodocs]).  scale-info interns by the TypeId of ONE step of [Identity]: a program
